@@ -1,9 +1,13 @@
 use crate::fw::*;
 
+pub mod c01_spec;
 pub mod c03_arith;
 pub mod c04_jump;
 pub mod c06_journal;
+pub mod c05_forks;
+pub mod c11_memory;
 pub mod c12_stack;
+pub mod c14_gasformulas;
 pub mod c13_gas;
 pub mod c15_c19;
 pub mod c20_wrappers;
@@ -18,6 +22,10 @@ pub mod online_props;
 
 pub fn dispatch(ctx: &Ctx) -> i32 {
     match ctx.id.as_str() {
+        "C01" => c01_spec::run(ctx),
+        "C05" => c05_forks::run(ctx),
+        "C11" => c11_memory::run(ctx),
+        "C14" => c14_gasformulas::run(ctx),
         "C03" => c03_arith::run(ctx),
         "C04" => c04_jump::run(ctx),
         "C27" => c27_bytecode::run(ctx),
